@@ -17,7 +17,8 @@ func init() {
 		Engines: "ALG (abstract interpretation of the set class functions over 4-bit membership truth tables, sibling summaries composed), FLOW (freshness), purity scan",
 		Decided: "D1 And, Or, Sans and Xor evaluate, for a generic element, to the truth tables 0001, 0111, 0100, 0110 over (in first, in second) - for every way of expressing them through AddValues/RemoveValues/filter loops/sibling calls the interpreter understands; " +
 			"D2 no mutating method is invoked on an operand and the result is created in the call and shares no storage with an operand (so aliased operands behave as two equal sets); " +
-			"D3 the result is created with an operand's collator.",
+			"D3 the result is created with an operand's collator." +
+			" Also: the class functions write no field of the class object; the result's ordered storage is changed only through the set's searched insert/remove; a loop that indexes a set by a counter and removes from it steps the counter back.",
 		NotDecided: "order and duplicate-freedom of the result (C02) and the membership semantics of ContainsValue/AddValue themselves (C02/C07): the tables are over abstract membership.",
 		Run:        runC15,
 	})
@@ -26,7 +27,8 @@ func init() {
 		Engines: "ALG (segment/override shapes), PATH (control dependence), dependence closure on the syntax tree, FLOW (freshness)",
 		Decided: "D1 Concatenate appends first then second to a list made in the call; D2 Merge starts from a copy of first and then sets, for every association of second in order, that association's key to that association's value; " +
 			"D3 Extract iterates the requested keys in order and stores a key only under a presence test that depends on the key and on the source catalog and not on the looked-up value; " +
-			"D4 operands are not mutated and results are fresh.",
+			"D4 operands are not mutated and results are fresh." +
+			" Also: the class functions keep no state; association cells of an operand are never stored into the result; when the result is assembled with make and copy the copies tile it (offsets = lengths of what precedes).",
 		NotDecided: "nothing beyond the three laws' shape: that SetValue/AppendValues themselves do what they document is C03/C01.",
 		Run:        runC16,
 	})
